@@ -308,3 +308,60 @@ Section Deliver.
                  let '(s2, xs) := deliver_all s1 rs in (s2, x :: xs)
     end.
 End Deliver.
+
+(* ------------------------------------------------------------------ *)
+(* The mempool path: CheckTx works on its own copy of the state        *)
+(* ------------------------------------------------------------------ *)
+(* abci/mux.go CheckTx -> executeTx with a ContextCheckTx context, whose state
+   is the check tree (abci/state.go: checkTxTree, re-created from the committed
+   state at Commit).  gas.go 94-108 (CheckOnly branch: no fee move, no nonce
+   write), auth.go PostExecuteTx 20-56 (CheckTx only: fee deducted and nonce
+   incremented IN THE CHECK STATE once everything else passed). *)
+Section Mempool.
+  Context {L Raw : Type}.
+  Variable C : cfg L Raw.
+  (* app.ExecuteTx in CheckTx mode and the node-local minimum gas price: arbitrary *)
+  Variable check_exec_ok : L -> bytes -> tx -> bool.
+
+  Definition check_tx (s : state L) (raw : Raw) : state L * bool :=
+    match decode C raw with
+    | DRej _ => (s, false)
+    | DTx e t =>
+        let a := addr_of C (e_pk e) in
+        let f := fee_of t in
+        let pre_ok :=
+          if is_critical C (t_method t) then true
+          else negb (reserved C a) && (nonce_of s a =? t_nonce t) && fee_ok C (rest s) a f in
+        if negb pre_ok then (s, false) else
+        if negb (gas_size_ok C (rest s) raw t) then (s, false) else
+        if negb (gas_price_ok C t) then (s, false) else
+        if negb (check_exec_ok (rest s) (e_pk e) t) then (s, false) else
+        if negb (fee_move_ok C (rest s) a f) then (s, false) else      (* auth.go:46 *)
+        ({| nonces := aset a ((nonce_of s a + 1) mod U64) (nonces s);   (* auth.go:50 *)
+            rest := pay_fee C (rest s) a f |}, true)
+    end.
+
+  (* delivery state and check state side by side *)
+  Record mstate := { ds : state L; cs : state L }.
+
+  Inductive mop :=
+  | MDeliver (o : @op L Raw)   (* anything of the delivery path *)
+  | MCheck (r : Raw)           (* CheckTx / re-CheckTx *)
+  | MCommit.                   (* the check state is reset to the committed state *)
+
+  Definition mstep (m : mstate) (o : mop) : mstate :=
+    match o with
+    | MDeliver o' => {| ds := step C (ds m) o'; cs := cs m |}
+    | MCheck r => {| ds := ds m; cs := fst (check_tx (cs m) r) |}
+    | MCommit => {| ds := ds m; cs := ds m |}
+    end.
+
+  Definition mrun (m : mstate) (ops : list mop) : mstate := fold_left mstep ops m.
+
+  Fixpoint deliver_ops (ops : list mop) : list (@op L Raw) :=
+    match ops with
+    | [] => []
+    | MDeliver o :: r => o :: deliver_ops r
+    | _ :: r => deliver_ops r
+    end.
+End Mempool.
